@@ -705,29 +705,30 @@ Section Solver.
   Definition undecided_positive (p : psol) : list (pkg * VS) :=
     flat_map (fun '(q, a) => match ai a with ADerivations (Pos s) => [(q, s)] | _ => [] end) (assignments p).
 
-  Definition result := (outcome * state * list pick_info)%type.
-  Definition res_out {A} (log : list pick_info) (r : res A) (k : A -> result) (st : state) : result :=
-    match r with Good a => k a | Panic s => (OPanic s, st, log) end.
+  (* outcome, final state, decision log, number of trace events consumed *)
+  Definition result := (outcome * state * list pick_info * nat)%type.
+  Definition res_out {A} (log : list pick_info) (cnt : nat) (r : res A) (k : A -> result) (st : state) : result :=
+    match r with Good a => k a | Panic s => (OPanic s, st, log, cnt) end.
 
   Fixpoint resolve_loop (fuel : nat) (st : state) (next : pkg) (added : list (pkg * Vr))
            (tr : list event) (n : nat) (log : list pick_info) : result :=
     match fuel with
-    | 0 => (OOutOfFuel, st, log)
+    | 0 => (OOutOfFuel, st, log, n)
     | S fuel' =>
         match tr with
         | EvCancel ok :: tr1 =>
-            if negb ok then (OErrCancel, st, log) else
+            if negb ok then (OErrCancel, st, log, S n) else
             match unit_propagation fuel st [next] with
-            | inr EFuel => (OOutOfFuel, st, log)
-            | inr (EPanic s) => (OPanic s, st, log)
+            | inr EFuel => (OOutOfFuel, st, log, S n)
+            | inr (EPanic s) => (OPanic s, st, log, S n)
             | inl (UPConflict st1 id) =>
                 match build_derivation_tree (store st1) id with
-                | Some t => (ONoSolution t, st1, log)
-                | None => (OPanic PTreeMissing, st1, log)
+                | Some t => (ONoSolution t, st1, log, S n)
+                | None => (OPanic PTreeMissing, st1, log, S n)
                 end
             | inl (UPOk st1) =>
                 match do_prioritize (pick_candidates (ps st1)) (queue (ps st1)) tr1 (S n) with
-                | inr o => (o, st1, log)
+                | inr o => (o, st1, log, S n)
                 | inl (q, tr2, n2) =>
                     let p1 := ps st1 in
                     let log1 := log ++ [(undecided_positive p1, q, n2)] in
@@ -735,65 +736,65 @@ Section Solver.
                       {| next_gidx := next_gidx p1; level := level p1; assignments := assignments p1;
                          queue := q'; changed := length (assignments p1); backtracked := backtracked p1 |} in
                     match queue_max q with
-                    | None => res_out log1 (extract_solution p1) (fun sol => (OSolution sol, upd_ps st1 (with_queue q), log1)) st1
+                    | None => res_out log1 n2 (extract_solution p1) (fun sol => (OSolution sol, upd_ps st1 (with_queue q), log1, n2)) st1
                     | Some mx =>
                         match tr2 with
                         | EvChoose p s ans :: tr3 =>
                             match get p q with
-                            | None => (OPickNotMax n2 p, st1, log1)
+                            | None => (OPickNotMax n2 p, st1, log1, n2)
                             | Some prio =>
-                                if negb (Z.eqb prio mx) then (OPickNotMax n2 p, st1, log1) else
+                                if negb (Z.eqb prio mx) then (OPickNotMax n2 p, st1, log1, n2) else
                                 let st2 := upd_ps st1 (with_queue (remove p q)) in
                                 match term_for (ps st2) p with
-                                | None => (OFailure FNoTerm, st2, log1)
+                                | None => (OFailure FNoTerm, st2, log1, n2)
                                 | Some ti =>
                                     match ti with
-                                    | Neg _ => (OPanic PUnwrapPositive, st2, log1)
+                                    | Neg _ => (OPanic PUnwrapPositive, st2, log1, n2)
                                     | Pos cur_set =>
-                                        if negb (vs_eqb O s cur_set) then (OMismatch n2 2, st2, log1) else
+                                        if negb (vs_eqb O s cur_set) then (OMismatch n2 2, st2, log1, n2) else
                                         match ans with
-                                        | CErr => (OErrChoose, st2, log1)
+                                        | CErr => (OErrChoose, st2, log1, S n2)
                                         | CNone =>
                                             match no_versions p ti with
-                                            | None => (OPanic PNoVersionsNegative, st2, log1)
+                                            | None => (OPanic PNoVersionsNegative, st2, log1, S n2)
                                             | Some inc =>
-                                                res_out log1 (add_incompatibility st2 inc)
+                                                res_out log1 (S n2) (add_incompatibility st2 inc)
                                                         (fun st3 => resolve_loop fuel' st3 p added tr3 (S n2) log1) st2
                                             end
                                         | CSome v =>
-                                            if negb (t_contains O ti v) then (OFailure FIncompatibleVersion, st2, log1) else
+                                            if negb (t_contains O ti v) then (OFailure FIncompatibleVersion, st2, log1, S n2) else
                                             if added_has added p v then
-                                              res_out log1 (add_decision (ps st2) p v)
+                                              res_out log1 (S n2) (add_decision (ps st2) p v)
                                                       (fun p' => resolve_loop fuel' (upd_ps st2 p') p added tr3 (S n2) log1) st2
                                             else
                                               let added' := (p, v) :: added in
                                               match tr3 with
                                               | EvDeps p' v' dans :: tr4 =>
-                                                  if negb (N.eqb p p' && veqb v v') then (OMismatch (S n2) 3, st2, log1) else
+                                                  if negb (N.eqb p p' && veqb v v') then (OMismatch (S n2) 3, st2, log1, S n2) else
                                                   match dans with
-                                                  | DErr => (OErrDeps p v, st2, log1)
+                                                  | DErr => (OErrDeps p v, st2, log1, S (S n2))
                                                   | DUnavail m =>
-                                                      res_out log1 (add_incompatibility st2 (custom_version p v m))
+                                                      res_out log1 (S (S n2)) (add_incompatibility st2 (custom_version p v m))
                                                               (fun st3 => resolve_loop fuel' st3 p added' tr4 (S (S n2)) log1) st2
                                                   | DAvail deps =>
-                                                      res_out log1 (add_incompatibility_from_dependencies st2 p v deps)
+                                                      res_out log1 (S (S n2)) (add_incompatibility_from_dependencies st2 p v deps)
                                                         (fun '(st3, range) =>
-                                                           res_out log1 (add_version (ps st3) p v range (store st3))
+                                                           res_out log1 (S (S n2)) (add_version (ps st3) p v range (store st3))
                                                                    (fun p' => resolve_loop fuel' (upd_ps st3 p') p added' tr4 (S (S n2)) log1) st3)
                                                         st2
                                                   end
-                                              | _ => (OMismatch (S n2) 3, st2, log1)
+                                              | _ => (OMismatch (S n2) 3, st2, log1, S n2)
                                               end
                                         end
                                     end
                                 end
                             end
-                        | _ => (OMismatch n2 4, st1, log1)
+                        | _ => (OMismatch n2 4, st1, log1, n2)
                         end
                     end
                 end
             end
-        | _ => (OMismatch n 5, st, log)
+        | _ => (OMismatch n 5, st, log, n)
         end
     end.
 
